@@ -83,6 +83,7 @@ type verdict struct {
 	Differs  string `json:"differs,omitempty"`
 	HostRel  string `json:"host_relation,omitempty"`
 	Redirect bool   `json:"followed_redirect,omitempty"`
+	CredRepo string `json:"credentials_of,omitempty"` // repository URL the observed credentials were configured for
 }
 
 // classify decides one recorded request of a case whose repository (the one the
@@ -96,15 +97,21 @@ type verdict struct {
 //	VIOLATION-cross-origin     repository credentials on a request Helm itself issued to another origin
 //	VIOLATION-redirect         repository credentials on a redirect target on an unrelated domain
 func classify(repoURL string, pass bool, r Rec) verdict {
+	return classifyFor(repoURL, pass, repoAuth, r)
+}
+
+// classifyFor is classify for the repository whose credentials encode to credAuth.
+func classifyFor(repoURL string, pass bool, credAuth string, r Rec) verdict {
 	v := verdict{Rec: r, Redirect: strings.HasPrefix(r.Path, redirPrefix+"/")}
 	if r.Auth == "" {
 		v.Class = "clean"
 		return v
 	}
-	if r.Auth != repoAuth {
+	if r.Auth != credAuth {
 		v.Class = "foreign-auth"
 		return v
 	}
+	v.CredRepo = repoURL
 	ro, err := originOfURL(repoURL)
 	if err != nil {
 		v.Class = "VIOLATION-cross-origin"
@@ -144,6 +151,28 @@ func classify(repoURL string, pass bool, r Rec) verdict {
 func (v verdict) violation() bool { return strings.HasPrefix(v.Class, "VIOLATION") }
 
 func (v verdict) describe(repoURL string) string {
+	if v.CredRepo != "" {
+		repoURL = v.CredRepo
+	}
 	return fmt.Sprintf("request %s carries the credentials configured for repository %s (differs in %s; request host is %s)",
 		v.Rec.String(), repoURL, v.Differs, v.HostRel)
+}
+
+// second credentialed repository of call path manager-2creds
+const (
+	repoBUser = "bob"
+	repoBPass = "hunter2"
+	repoBURL  = "http://other.test/charts"
+)
+
+var repoBAuth = "Basic " + base64.StdEncoding.EncodeToString([]byte(repoBUser+":"+repoBPass))
+
+// classify2 judges a request of a case with two credentialed repositories: the
+// credentials of repository R may appear only on R's origin unless R's OWN
+// pass-credentials flag is on.
+func classify2(c Case, r Rec) verdict {
+	if r.Auth == repoBAuth {
+		return classifyFor(repoBURL, c.PassB, repoBAuth, r)
+	}
+	return classifyFor(c.Repo, c.Pass, repoAuth, r)
 }
